@@ -7,7 +7,7 @@ use serde_json::json;
 use std::time::Duration;
 
 const RULE: &str = "back-off generator: all tuples initial in {1,2,3,200} ms x max in {1,2,5,1000,300000} ms x multiplier in {1,2,3} x max_count in 0..=5, each with every sequence of 12 advance/reset operations in which resets occur at every single position and every pair of positions; \
-reference: k-th consecutive delay = min(initial * mult^k, max), None once max_count (non-zero) consecutive advances were made, reset starts over. Exhaustive over that set";
+plus long outages: 400 consecutive advances (unlimited and large max_count, multipliers up to 10, a panic is a violation); reference: k-th consecutive delay = min(initial * mult^k, max), None once max_count (non-zero) consecutive advances were made, reset starts over. Exhaustive over that set";
 
 struct Ref {
     initial: u128,
@@ -35,6 +35,7 @@ impl Ref {
 }
 
 pub fn run(p: &Params) -> (Stats, &'static str) {
+    std::panic::set_hook(Box::new(|_| {}));
     let mut st = Stats::new();
     st.engine("PURE", 1);
     let mut idx = 0u64;
@@ -83,6 +84,59 @@ pub fn run(p: &Params) -> (Stats, &'static str) {
             }
         }
     }
+    // long outages: hundreds of consecutive failures (the client's default is "retry for ever")
+    let mut long_runs = 0u64;
+    for initial in [1u64, 3, 200] {
+        for max in [1u64, 5, 1000, 300_000, 86_400_000] {
+            for mult in [1u32, 2, 3, 10] {
+                for max_count in [0u32, 150, 400] {
+                    for pat in [vec![], vec![100usize], vec![70, 140, 141], vec![399]] {
+                        idx += 1;
+                        if idx % p.nshards != p.shard {
+                            continue;
+                        }
+                        st.evaluations += 1;
+                        long_runs += 1;
+                        let res = std::panic::catch_unwind(|| {
+                            let mut b = Backoff::new(Duration::from_millis(initial), Duration::from_millis(max), mult, max_count);
+                            let mut r = Ref { initial: u128::from(initial), max: u128::from(max), mult: u128::from(mult), max_count, k: 0 };
+                            for step in 0..400usize {
+                                if pat.contains(&step) {
+                                    b.reset();
+                                    r.reset();
+                                }
+                                let got = b.advance().map(|d| d.as_millis());
+                                let want = r.advance();
+                                if got != want {
+                                    return Some((step, got, want));
+                                }
+                            }
+                            None
+                        });
+                        let replay = json!({"kind": "c19-backoff-long", "initial": initial, "max": max, "mult": mult, "max_count": max_count, "resets": pat, "advances": 400});
+                        match res {
+                            Ok(None) => {}
+                            Ok(Some((step, got, want))) => st.violation(Violation {
+                                signature: format!("backoff-mismatch|long|{}", if want.is_none() { "should-stop" } else if got.is_none() { "stopped-early" } else { "delay" }),
+                                detail: format!("Backoff::new({initial}ms, {max}ms, x{mult}, max_count {max_count}), resets at {pat:?}: advance #{step} returned {got:?} ms, reference {want:?} ms"),
+                                replay,
+                            }),
+                            Err(e) => {
+                                let msg = e.downcast_ref::<String>().cloned().or_else(|| e.downcast_ref::<&str>().map(|s| (*s).to_string())).unwrap_or_else(|| "panic".into());
+                                st.violation(Violation {
+                                    signature: "backoff-panic|long".into(),
+                                    detail: format!("Backoff::new({initial}ms, {max}ms, x{mult}, max_count {max_count}), resets at {pat:?}: advance() panicked within 400 consecutive advances: {msg} (a client retrying for ever dies after that many failed attempts)"),
+                                    replay,
+                                });
+                            }
+                        }
+                        st.nontrivial(mix(mix(initial * 11 + max, u64::from(mult) * 8 + u64::from(max_count)), idx));
+                    }
+                }
+            }
+        }
+    }
+    st.target("backoff_long_outage_runs", long_runs);
     st.target("backoff_tuples_x_reset_patterns", st.evaluations);
     st.exhaustive.push("back-off generator: 4x5x3x6 parameter tuples x 79 reset patterns over 12 advances".into());
     st.sample(json!({"tuple": "initial 200ms max 1000ms x2 max_count 3", "expected": ["200", "400", "800", "None", "None"]}));
